@@ -10,6 +10,7 @@ from .facts import Run, cond_pol, normal
 from .interp import Ctx, analyse_method
 from .model import AnalysisError, iter_functions
 from .report import RuleResult
+from .interp import Coll  # noqa: E402
 from .terms import Child, Const, Sym, Val
 
 
@@ -210,6 +211,9 @@ def rule_MP(run: Run) -> RuleResult:
         raise AnalysisError("Option.evaluate has no returning path")
     ok_t = ok_d = ok_v = True
     d_t = d_d = d_v = ""
+    from .interp import Frame
+    D_ = "Val(evaluate,Child(domain))"
+    returned: Set[str] = set()
     for p in rets:
         r = p.ret
         tv = [e for e in p.events if e.kind == "call" and e.text == "new TypeValidationRequest"]
@@ -220,13 +224,20 @@ def rule_MP(run: Run) -> RuleResult:
         elif not any(e.args and e.args[0] == r and len(e.args) >= 3 and e.args[1] == Child("type") for e in tv):
             ok_t = False
             d_t = f"type request checks {tv[0].args[0].key()[:60]} but the path returns {r.key()[:60]}"
-        ent = [e for e in p.events if e.kind == "enter" and e.text == "_enforce_domain"]
-        if not ent:
+        # the domain, when there is one, is evaluated and consulted before the value is handed out
+        dom_missing = cond_pol(p.conds, "cmp:Is(Child(domain),Const(MISSING))")
+        dom_ops = [e for e in p.events if e.kind == "op" and e.op == "evaluate" and isinstance(e.target, Child) and e.target.path == "domain"]
+        at = Frame.atoms(p.conds)
+        if dom_missing is not True and not dom_ops:
             ok_d = False
-            d_d = "a returning path does not pass through self._enforce_domain"
-        elif not any(e.args and e.args[0] == r for e in ent):
+            d_d = f"a returning path never evaluates the domain (conditions {[c[0] for c in p.conds][:4]})"
+        elif dom_ops and not any(D_ in k_ for k_ in at):
             ok_d = False
-            d_d = f"_enforce_domain checks {ent[0].args[0].key()[:60]} but the path returns {r.key()[:60]}"
+            d_d = "a returning path evaluates the domain but never tests the value against it"
+        if at.get(f"valuecall({D_},{r.key()})") is False or at.get(f"cmp:In({r.key()},{D_})") is False:
+            ok_d = False
+            d_d = "a path returns although the domain rejected the value"
+        returned.add(r.key())
         # what is returned is the provided or the default value
         rk = r.key()
         if not (rk.startswith("call:confectioner.templating.resolve(call:confectioner.templating.get_dotted_key(Child(key),options),options)")
@@ -238,31 +249,22 @@ def rule_MP(run: Run) -> RuleResult:
     res.add("labrea.option.Option.evaluate:domain enforced on the returned value", ok_d, f, fn.lineno, d_d or f"all {len(rets)} returning paths", nec)
     res.add("labrea.option.Option.evaluate:returns resolve(get_dotted_key(self.key, options), options) or the default's value", ok_v, f, fn.lineno,
             d_v or "provided value resolved against the same options, else the evaluated default", nec)
-    # _enforce_domain: a rejecting domain never lets the path return
-    ed = opt.methods.get("_enforce_domain")
-    if ed is None:
-        raise AnalysisError("Option._enforce_domain not found")
-    eps = analyse_method(Ctx(repo), opt, "_enforce_domain")
-    saw_call = saw_in = False
-    ok_r = True
-    d_r = ""
-    for p in eps:
-        for c in p.conds:
-            t = c[2]
-            if "valuecall(Val(evaluate,Child(domain)),value)" in t:
-                saw_call = True
-                rejected = "unop:Not(valuecall(Val(evaluate,Child(domain)),value))" in t and c[1] is True
-                if rejected and p.status == "ret":
-                    ok_r = False
-                    d_r = "a path returns although the callable domain rejected the value"
-            if "cmp:NotIn(value,Val(evaluate,Child(domain)))" in t:
-                saw_in = True
-                if c[1] is True and p.status == "ret":
-                    ok_r = False
-                    d_r = "a path returns although the value is not in the container domain"
-    res.add("labrea.option.Option._enforce_domain:callable domain consulted", saw_call, f, ed.lineno, "domain(value) is tested", nec)
-    res.add("labrea.option.Option._enforce_domain:container domain consulted", saw_in, f, ed.lineno, "value not in domain is tested", nec)
-    res.add("labrea.option.Option._enforce_domain:rejection always raises", ok_r, f, ed.lineno, d_r or "every rejecting path ends in raise", nec)
+    # a rejecting domain never lets a value out: for every form of returned value there is a failing path
+    # for the callable kind of domain and one for the container kind
+    saw_call, saw_in = set(), set()
+    for p in ps:
+        if p.status != "raise":
+            continue
+        at = Frame.atoms(p.conds)
+        for rk in returned:
+            if at.get(f"valuecall({D_},{rk})") is False and at.get(f"call:callable({D_})") is not False:
+                saw_call.add(rk)
+            if at.get(f"cmp:In({rk},{D_})") is False:
+                saw_in.add(rk)
+    res.add("labrea.option.Option._enforce_domain:callable domain consulted", bool(returned) and saw_call == returned, f, fn.lineno,
+            "a value the predicate rejects makes evaluate() fail, for the provided and the default value" if saw_call == returned else f"no failing path for a rejected {sorted(returned - saw_call)[0][:60]}", nec)
+    res.add("labrea.option.Option._enforce_domain:container domain consulted", bool(returned) and saw_in == returned, f, fn.lineno,
+            "a value outside the container makes evaluate() fail, for the provided and the default value" if saw_in == returned else f"no failing path for {sorted(returned - saw_in)[0][:60]} outside the container", nec)
     # default normalisation: every path of __init__ assigns self.default exactly once
     init = opt.methods.get("__init__")
     if init is not None:
@@ -532,39 +534,54 @@ def rule_PO(run: Run) -> RuleResult:
                 a = ast.unparse(n.args[0])
                 ok = a == f"{astu.param_names(fn)[0]}.keys()"
                 res.add(f"{cls.qualname}.keys:set({a}) is a set of present keys", ok, owner.module.relpath, n.lineno, a, nec)
-    # (2) WithOptions filter: kept and (P or C) => C, on all assignments
+    # (2) WithOptions filter: kept and (P or C) => C, on all assignments.  The filter is read off the
+    # interpreter's paths (the test under which an inner key is kept), so helpers and local names are
+    # already substituted and the path's own decisions (self.force) are known.
+    from .facts import bool_atoms, eval_bool
+    from .interp import Frame
     wo = repo.cls("WithOptions")
     for op in ("keys", "explain"):
-        fn = wo.methods[op]
-        comp = [n for n in astu.walk_no_nested(fn) if isinstance(n, ast.SetComp)]
-        if len(comp) != 1 or len(comp[0].generators) != 1 or len(comp[0].generators[0].ifs) != 1:
-            res.add(f"labrea.option.WithOptions.{op}:pre-set keys filtered", False, wo.module.relpath, fn.lineno,
-                    "no single filtered set comprehension over the inner keys", nec)
-            continue
-        g = comp[0].generators[0]
-        var = g.target.id if isinstance(g.target, ast.Name) else "?"
-        cond = astu.inline_helpers(astu.expand_locals(g.ifs[0], astu.single_assign_map(fn), keep=frozenset(astu.param_names(fn))), astu.class_resolver(repo, wo))
-        atoms: List[str] = []
-        _atoms(cond, atoms)
+        fn = wo.find_method(op)[1]
         optp = astu.param_names(fn)[0]
-        P, C, F = f"dotted_key_exists({var}, self.options)", f"dotted_key_exists({var}, {optp})", "self.force"
-        unknown = [a for a in atoms if a not in (P, C, F)]
-        if unknown:
-            res.add(f"labrea.option.WithOptions.{op}:pre-set keys filtered", False, wo.module.relpath, fn.lineno,
-                    f"filter uses unrecognised atoms {unknown}", nec)
-            continue
-        bad = []
-        for p_, c_, f_ in itertools.product([False, True], repeat=3):
-            kept = _eval_formula(cond, {P: p_, C: c_, F: f_})
-            # inner keys are present in the mixed options: P or C
-            if kept and (p_ or c_) and not c_:
-                bad.append((p_, c_, f_))
-            # a key the caller's value decides must be kept: C and not (P and F)
-            if c_ and not (p_ and f_) and not kept:
-                bad.append(("dropped", p_, c_, f_))
-        ok_elt = isinstance(comp[0].elt, ast.Name) and comp[0].elt.id == var
-        res.add(f"labrea.option.WithOptions.{op}:pre-set keys filtered", not bad and ok_elt, wo.module.relpath, fn.lineno,
-                f"filter `{ast.unparse(cond)}` checked on 8 assignments of (in pre-set, in caller, force)" + (f"; failing {bad}" if bad else ""),
+        EL = f"elem(Val({op},Child(evaluatable)))"
+        P = f"call:confectioner.templating.dotted_key_exists({EL},Child(options))"
+        C = f"call:confectioner.templating.dotted_key_exists({EL},{optp})"
+        F = "Child(force)"
+        bad: List[str] = []
+        n_filters = 0
+        shown = ""
+        for p_ in normal(run.paths(wo, op)):
+            flt = [e for e in p_.events if e.kind == "filter" and e.args and e.args[0].key() == EL]
+            if not flt:
+                if isinstance(p_.ret, Coll) or EL in p_.ret.key():
+                    bad.append("a path returns the inner keys without filtering the pre-set ones")
+                continue
+            n_filters += len(flt)
+            known = {k: v for k, v in Frame.atoms(p_.conds).items() if k in (P, C, F)}
+            atoms_: List[str] = []
+            for e in flt:
+                bool_atoms(e.target, atoms_)
+            shown = " and ".join(e.text for e in flt)
+            unknown = [a_ for a_ in atoms_ if a_ not in (P, C, F)]
+            if unknown:
+                bad.append(f"filter uses unrecognised atoms {[u[:80] for u in unknown]}")
+                continue
+            for pv, cv, fv in itertools.product([False, True], repeat=3):
+                asg = {P: pv, C: cv, F: fv}
+                if any(asg[k] != v for k, v in known.items()):
+                    continue
+                vals = [eval_bool(e.target, asg) for e in flt]
+                kept = all(v is True for v in vals)
+                # inner keys are present in the mixed options: P or C
+                if kept and (pv or cv) and not cv:
+                    bad.append(f"kept although absent from the caller's options (pre-set={pv}, caller={cv}, force={fv})")
+                # a key the caller's value decides must be kept: C and not (P and F)
+                if cv and not (pv and fv) and not kept:
+                    bad.append(f"dropped although the caller's value decides it (pre-set={pv}, caller={cv}, force={fv})")
+        if n_filters == 0 and not bad:
+            bad.append("no filter over the inner keys found")
+        res.add(f"labrea.option.WithOptions.{op}:pre-set keys filtered", not bad, wo.module.relpath, fn.lineno,
+                f"filter `{shown}` checked on the assignments of (in pre-set, in caller, force) compatible with each path" + (f"; failing: {sorted(set(bad))[:3]}" if bad else ""),
                 nec + "; and a key whose value the caller decides must not be dropped (stale cache hit, C01)")
     return res
 
@@ -608,15 +625,47 @@ def rule_NK(run: Run) -> RuleResult:
 
     plan = {"_from_type": "key", "_inherit": "parent", "__getitem__": "self._key", "_build_doc": "self._key"}
     n = 0
+
+    def helper_of(c: ast.Call):
+        """(function node, parameter names) of a private module-level helper / Namespace method called at c."""
+        if isinstance(c.func, ast.Name):
+            r = repo.resolve_name(ns.module, c.func.id)
+            if r and r[0] == "func" and r[1].module is ns.module:
+                return r[1].node, [a.arg for a in r[1].node.args.posonlyargs + r[1].node.args.args]
+        return None
+
+    def check(fn, prefix: str, label: str, depth: int = 0):
+        nonlocal n
+        amap = astu.single_assign_map(fn)
+        keep = frozenset(astu.param_names(fn)) | {prefix, "self", "cls"}
+        for c, e, what in key_sites(fn, prefix):
+            n += 1
+            e2 = astu.expand_locals(e, amap, keep=keep)
+            if what.startswith("prefix handed"):
+                # a nested namespace / class re-keys itself: it must receive exactly this prefix
+                ok = ast.unparse(e) == prefix or ast.unparse(e2) == prefix
+            else:
+                ok = starts_with(e, prefix) or starts_with(e2, prefix)
+            res.add(f"labrea.option.Namespace.{label}:{what} `{ast.unparse(e)[:40]}` is <{prefix}>.<own key>", ok, f, c.lineno,
+                    f"{ast.unparse(c)[:90]}", nec)
+        if depth >= 2:
+            return
+        # a helper that receives the prefix builds keys on this method's behalf
+        for c in astu.calls_in(fn):
+            h = helper_of(c)
+            if h is None or h[0] is fn:
+                continue
+            hfn, params = h
+            for i, a in enumerate(c.args):
+                a2 = astu.expand_locals(a, amap, keep=keep)
+                if i < len(params) and (starts_with(a, prefix) or starts_with(a2, prefix)):
+                    check(hfn, params[i], f"{label}>{hfn.name}", depth + 1)
+
     for mname, prefix in plan.items():
         fn = ns.methods.get(mname)
         if fn is None:
             raise AnalysisError(f"Namespace.{mname} not found")
-        for c, e, what in key_sites(fn, prefix):
-            n += 1
-            ok = starts_with(e, prefix)
-            res.add(f"labrea.option.Namespace.{mname}:{what} `{ast.unparse(e)[:40]}` is <{prefix}>.<own key>", ok, f, c.lineno,
-                    f"{ast.unparse(c)[:90]}", nec)
+        check(fn, prefix, mname)
     ft = ns.methods["_from_type"]
     ok = any(isinstance(s_, ast.Assign) and ast.unparse(s_.targets[0]) == "key" and ast.unparse(s_.value) == "f'{parent}.{name}' if parent else name" for s_ in ast.walk(ft))
     res.add("labrea.option.Namespace._from_type:key is parent.name (or name at the root)", ok, f, ft.lineno, "", nec)
@@ -627,6 +676,6 @@ def rule_NK(run: Run) -> RuleResult:
     t = ast.unparse(pp) if pp else ""
     ok = "result = member._populate(result, options)" in t and "result = member.set(result, member(options))" in t and "return result" in t
     res.add("labrea.option.Namespace._populate:members written with Option.set under their qualified keys", ok, f, pp.lineno if pp else 0, "", nec)
-    if n < 8:
+    if n < 5:
         raise AnalysisError(f"R-NK found only {n} key construction sites in Namespace")
     return res
